@@ -190,7 +190,7 @@ def run(run):
     ]
     run.assumptions = ["titles are stored canonically (spaces, not underscores), as dumps provide them"]
     run.prove()
-    n = 1500 if run.tier == "quick" else 20000
+    n = 2500 if run.tier == "quick" else 20000
     cases = []
     for i in range(n):
         ln = run.rng.randint(1, 4) if i % 3 == 0 else run.rng.randint(5, 40)
